@@ -73,7 +73,7 @@ def generate(rng):
         params["theta"] = rng.choice([0.005, 0.01, 0.04])
     prim = {"id": "p0", "kind": kind, "params": params, "dtype": rng.choice([None, None, "float32", "float64"])}
     dt = params["dt"]
-    steps = rng.choice([0, 1, 2, 3, 5, 8, 12, 30])
+    steps = rng.nsteps([0, 1, 2, 3, 5, 8, 12, 30])
     d = {"id": "d0", "kind": "EuropeanOption", "underlier": "p0", "params": {"call": True, "strike": 1.0, "maturity": steps * dt}}
     lazy = rng.chance(0.3)
     m = {"id": "m0", "kind": "lazy_mlp" if lazy else "linear", "in": 1, "out": 1, "init_seed": rng.seed31(), "n_layers": 1, "n_units": 2}
